@@ -27,6 +27,9 @@ CLAIMS = {
  "C06": ("Structural clauses only, Linux/epoll branch (the kqueue branch is not compiled here): timer unit-conversion constants coherent for s/ms/us/ns; registrations reach tpt_ev_post only after tpt_ev_validate returned 0; validator exhaustive over event kinds with failing default, per-kind fflags mask equals the defined flags, foreign set-flags and ONESHOT+DISPATCH refused; programmed value definitely assigned; DISABLED gate / one-shot forget / dispatch mark / EOF / ERROR stores on every path to the callback; interval zero iff one-shot; ABSTIME<->clock agreement; descriptors closed on failing paths; tpdata bit fields disjoint. Firing behaviour over registration histories is NOT decided.",
          "Trusts clang 14 CFG; constants evaluated by the compiler in a probe unit with the real flags; documented epoll/timerfd semantics.",
          "static analysis: constant extraction from case arms, guard evaluation over finite flag domains, cut-set reachability, path enumeration, compile-time probes"),
+ "C11": ("Structural clauses only: every field-held resource (pool allocation, epoll fd, both pipe ends, queue, thread) has a release of that field on the tp_destroy path; failing exits of tp_create / tpt_msg_queue_create / tpt_data_init release what they acquired; the self-join guard (EDEADLK) dominates every join/poll/release and a failed wait releases nothing; worker hooks bracket the loop exactly once; the virtual thread's start hook follows its successful init and its stop hook runs only if it was started; the shutdown latch is atomic. Termination / no late callback for every schedule is NOT decided.",
+         "Trusts clang 14 CFG and the direct-call graph (function pointers are only user hooks/callbacks).",
+         "static analysis: acquire/release pairing over the call graph, path enumeration of failing exits, guard dominance, race lint on life-cycle latch"),
  "C07": ("Pad-wiping clause decided completely (k_ipad, k_opad, inner context wiped on every path; every local HMAC context reaches its final); no context read after final; RFC 2104 skeleton (strict block comparison, zero padding, 0x36/0x5c over whole block, inner/outer order). MAC equality is NOT decided.",
          "Trusts clang 14 CFG, typestate dataflow in rules/r_ts.py; *_final wiping its context is C04's obligation.",
          "static analysis: typestate dataflow + post-dominance + structural skeleton match"),
